@@ -496,3 +496,98 @@ def canon_result_from_model(s):
     if isinstance(s, list) and s and s[0] == "err":
         return ("err", str(s[1]))
     return ("model_error", repr(s))
+
+
+# ------------------------------------------------------------------ policies
+# policy: {"id", "effect", "principal": cons, "action": acons, "resource": cons,
+#          "conds": [("when"|"unless", expr)], "annotations": [(k, v)]}
+# cons : ("any",) | ("eq", ref) | ("in", ref) | ("is", ty) | ("isin", ty, ref)   ref: uid | "slot"
+# acons: ("any",) | ("eq", uid) | ("in", [uid])
+# link : {"id", "template": tid, "slots": [("principal"|"resource", uid)]}
+def mk_and(a, b):
+    if a[0] == "lit" and b[0] == "lit" and a[1][0] == "bool" and b[1][0] == "bool":
+        return ("lit", ("bool", a[1][1] and b[1][1]))
+    return ("and", a, b)
+
+
+def policy_body(conds):
+    es = [e if k == "when" else ("unop", "not", e) for k, e in conds]
+    if not es:
+        return None
+    acc = es[-1]
+    for e in reversed(es[:-1]):
+        acc = mk_and(e, acc)
+    return acc
+
+
+def ref_sx(r):
+    return Sym("slot") if r == "slot" else uid_sx(r)
+
+
+def cons_sx(c):
+    if c[0] == "any":
+        return Sym("any")
+    if c[0] in ("eq", "in"):
+        return [Sym(c[0]), ref_sx(c[1])]
+    if c[0] == "is":
+        return [Sym("is"), name_sx(c[1])]
+    return [Sym("isin"), name_sx(c[1]), ref_sx(c[2])]
+
+
+def acons_sx(c):
+    if c[0] == "any":
+        return Sym("any")
+    if c[0] == "eq":
+        return [Sym("eq"), uid_sx(c[1])]
+    return [Sym("in"), [uid_sx(u) for u in c[1]]]
+
+
+def opt_sx(x, f):
+    return Sym("none") if x is None else [Sym("some"), f(x)]
+
+
+def template_sx(p):
+    return [Sym("template"), Str(p["id"]), [[Str(k), Str(v)] for k, v in p.get("annotations", [])],
+            Sym(p["effect"]), cons_sx(p["principal"]), acons_sx(p["action"]), cons_sx(p["resource"]),
+            opt_sx(policy_body(p["conds"]), expr_sx)]
+
+
+def policy_sx(p, templates=None):
+    """static policy, or link (then `templates` maps template id -> template dict)"""
+    if "template" in p:
+        t = templates[p["template"]]
+        return [Sym("policy"), template_sx(t), [Sym("some"), Str(p["id"])], slots_sx(p["slots"])]
+    return [Sym("policy"), template_sx(p), Sym("none"), []]
+
+
+def ref_text(r, var):
+    return "?" + var if r == "slot" else uid_text(r)
+
+
+def cons_text(c, var):
+    if c[0] == "any":
+        return var
+    if c[0] == "eq":
+        return "%s == %s" % (var, ref_text(c[1], var))
+    if c[0] == "in":
+        return "%s in %s" % (var, ref_text(c[1], var))
+    if c[0] == "is":
+        return "%s is %s" % (var, type_text(c[1]))
+    return "%s is %s in %s" % (var, type_text(c[1]), ref_text(c[2], var))
+
+
+def acons_text(c, single_form=False):
+    if c[0] == "any":
+        return "action"
+    if c[0] == "eq":
+        return "action == %s" % uid_text(c[1])
+    if single_form and len(c[1]) == 1:
+        return "action in %s" % uid_text(c[1][0])
+    return "action in [%s]" % ", ".join(uid_text(u) for u in c[1])
+
+
+def policy_text(p, single_form=False):
+    ann = "".join("@%s(%s)\n" % (k, str_lit(v)) for k, v in p.get("annotations", []))
+    conds = "".join(" %s { %s }" % (k, expr_text(e)) for k, e in p["conds"])
+    return "%s%s(%s, %s, %s)%s;" % (ann, p["effect"], cons_text(p["principal"], "principal"),
+                                     acons_text(p["action"], single_form), cons_text(p["resource"], "resource"), conds)
